@@ -11,6 +11,11 @@ claimed = {
    text="Generated IOS pairs (block structure, remarks, log variants, IOS-XE numbers, shared ACLs, VRFs, crypto filter ACLs, routes) are run through the real compare; the script is executed on the IOS model and every managed interface must filter as the target (runs of same-action entries compared as multisets), routes of managed VRFs equal, second compare empty, 'unchanged' only if equivalent. Known root causes F18/F20 are set aside by signature.",
    note="Trusted: harness IOS model (harness/iosm), calibrated on the repository's expected outputs (TestCorpusIOS).",
    ref="DESIGN.md §3 C02"),
+ "C12": dict(
+   level="exploration", technique="property-based testing (rapid) with harness-owned schedules: the holder's simulator parks it at a drawn dialogue step (FIFO), contenders run to completion meanwhile, then release or SIGKILL; session-overlap detector in the simulator transcript; snapshots of status/history/log directories",
+   text="A holder (drc or do-approve, approve or compare, device given as absolute path, relative path, ipv6 path or name) is parked by its simulator before a drawn dialogue step; 1-3 contenders of all front-end x spelling combinations must each fail at once with 'Approve in progress', open no session on the device and leave status, history and log directories byte-identical; after release the holder's own result is unaffected, after release or SIGKILL a follower gets the lock; the simulator transcript never shows two overlapping sessions. A stress arm starts 2-4 runs at once under the OS scheduler.",
+   note="Trusted: kernel flock semantics; the lock-acquisition race itself is only stressed (OS-owned schedule), every other schedule is harness-owned. SSH families only (the lock code is family-independent).",
+   ref="DESIGN.md §3 C12"),
  "C13": dict(
    level="exploration", technique="model-based property testing (rapid): generated histories of policy changes, approves, compares, drift, bzip2, removal and status damage; real missing-approve binary compared after every action with a reference model of the latest conclusive observation",
    text="Histories over 1-3 devices are executed against the real status package (SetApprove/SetCompare under a TEST_TIME clock) and the real missing-approve binary; after every action the set of listed devices must satisfy the must-list and must-omit clauses of the property computed by an independent reference model. Known root cause F4/F4b (two-slot status memory) is set aside by signature.",
